@@ -193,7 +193,7 @@ package litefs
 //@   requires s != nil
 
 //@ func (s *Store) CreateDB [C15]
-//@   requires  s != nil && s.OS != nil && s.dbs != nil
+//@   requires  s != nil && s.OS != nil && s.dbs != nil && s.Exit != nil
 //@   requires  storeDBCountMetric != nil
 //@   ghost held bool = false
 //@   ghost opened bool = false
@@ -218,7 +218,7 @@ package litefs
 // CreateDBIfNotExists (replica side and HTTP import): an existing object — including a remembered dropped one — is
 // returned as is, without touching the file system; otherwise a fresh object is opened and registered.
 //@ func (s *Store) CreateDBIfNotExists [C15,C16]
-//@   requires  s != nil && s.OS != nil && s.dbs != nil
+//@   requires  s != nil && s.OS != nil && s.dbs != nil && s.Exit != nil
 //@   requires  storeDBCountMetric != nil
 //@   ghost held bool = false
 //@   on call sync.Mutex.Lock assert !held ; then held = true
@@ -410,6 +410,7 @@ package litefs
 //@   loop 1 modifies contents(walFrameOffsets)
 //@   loop 1 invariant walFrameOffsets != nil
 //@   loop 2 modifies contents(pageData), sought, readok, written
+//@   thorough  Export/loop2/frame/F:os.File
 //@   loop 2 invariant sampled && !sought && !readok && !unlocked && exportReadLocks(gs) && dbFile != nil && len(pageData) == int(pageSize)
 //@   loop 2 invariant pageN == 0xffffffff || (pgno >= 1 && pgno - 1 <= pageN && written == int(pgno) - 1)
 //@   ensures   unlocked
